@@ -1,7 +1,7 @@
 """C07 — packet decoders accept exactly the well-formed packets (structural part). DESIGN §4 C07."""
 import ast
 
-from .common import ctx, returns, calls_in_ctx, reach_from_succ, site, srcs_text, escape_check, resolve_call, truthy_label, full_text, alias_text, orient
+from .common import ctx, returns, calls_in_ctx, reach_from_succ, site, srcs_text, escape_check, resolve_call, truthy_label, full_text, alias_text, orient, explore
 from .lvs import raising_edge, cmp_sides
 from ..flow import callee_attr
 from ..loader import AnalysisError, norm, FuncT
@@ -225,6 +225,14 @@ def bounds_rule(R, oid, qual, length_vars, sink_kinds):
             if t.kind == 'test' and isinstance(t.ast, ast.Compare) and len(t.ast.ops) == 1 and 'len(' in ast.unparse(t.ast) \
                     and isinstance(t.ast.ops[0], (ast.Lt, ast.LtE, ast.Gt, ast.GtE, ast.NotEq, ast.Eq)) and (_raises(cx, t, True) or _raises(cx, t, False)):
                 validated |= {y.id for y in ast.walk(t.ast) if isinstance(y, ast.Name) and y.id in length_vars}
+        # a plain copy of a validated counter (`remaining = length`) that is only ever decreased afterwards is bounded the same way
+        for n in cx.cfg.nodes:
+            if n.kind == 'stmt' and isinstance(n.ast, ast.Assign) and len(n.ast.targets) == 1 and isinstance(n.ast.targets[0], ast.Name) \
+                    and isinstance(n.ast.value, ast.Name) and n.ast.value.id in validated:
+                cp = n.ast.targets[0].id
+                others = [m for m in cx.cfg.nodes if m is not n and any(nm == cp for (nm, _) in cx.cfg.defs_of(m))]
+                if all(m.kind == 'stmt' and isinstance(m.ast, ast.AugAssign) and isinstance(m.ast.op, ast.Sub) for m in others):
+                    validated.add(cp)
         # bounds tests: ordering / inequality comparison mentioning a derived var whose failing edge raises; the other side is the
         # buffer size or a validated length counter
         good_edges = set()
@@ -352,7 +360,14 @@ def run(R):
     bounds_rule(R, 'C07.BND.1', 'ndn.encoding.name.Name.decode', {'length', 'len_comp'}, {'slice'})
     bounds_rule(R, 'C07.BND.1', 'ndn.encoding.tlv_var.parse_and_check_tl', {'size'}, {'slice'})
     R.ob('C07.BND.2', 'Name.decode: the per-component bound covers Type + Length + Value of the component, and the remaining Name length decreases by exactly that')
-    name_decs, name_sizes = extent_rule(R, 'C07.BND.2', 'ndn.encoding.name.Name.decode', 'length')
+    # the count of bytes still to scan: the local the component loop tests against 0 and decreases (the Length itself, or a copy of it)
+    nd0 = ctx(R, 'ndn.encoding.name.Name.decode')
+    rem = [ast.unparse(t.ast.left) for t in nd0.cfg.nodes if t.kind == 'test' and isinstance(t.stmt, ast.While) and isinstance(t.ast, ast.Compare)
+           and len(t.ast.ops) == 1 and isinstance(t.ast.ops[0], ast.Gt) and ast.unparse(t.ast.comparators[0]) == '0' and isinstance(t.ast.left, ast.Name)
+           and any(isinstance(x, ast.AugAssign) and isinstance(x.op, ast.Sub) and ast.unparse(x.target) == ast.unparse(t.ast.left) for x in ast.walk(t.stmt))]
+    R.need(len(rem) == 1, f'Name.decode: the component loop `while <remaining> > 0` with its decrement was not found ({rem})')
+    REM = rem[0]
+    name_decs, name_sizes = extent_rule(R, 'C07.BND.2', 'ndn.encoding.name.Name.decode', REM)
     # ------------------------------------------------------------------ ESC.1
     R.ob('C07.ESC.1', 'the decoders raise only the documented decoding errors (DecodeError, IndexError, ValueError, struct.error, TypeError)')
     for q in DECODERS:
@@ -390,6 +405,52 @@ def run(R):
             R.fail('C07.GRD.1', inst, q, 'def ' + cx.f.node.name, f'outer type 0x{want:02x} / exact length is not checked', site(cx, cx.f.node))
     # ------------------------------------------------------------------ TBL.1
     R.ob('C07.TBL.1', 'UintField.parse_from accepts widths 1,2,4,8 only')
+    # whatever the shape of the dispatch: for each Length 0..17 the paths possible with that value either return a number or raise
+    pf = ctx(R, 'ndn.encoding.tlv_model.UintField.parse_from')
+    lpar = [a.arg for a in pf.f.node.args.args]
+    R.need('length' in lpar, 'UintField.parse_from: no `length` parameter')
+
+    def int_test(e, v):
+        def val(x):
+            if isinstance(x, ast.Name) and x.id == 'length':
+                return v
+            if isinstance(x, ast.Constant) and isinstance(x.value, int) and not isinstance(x.value, bool):
+                return x.value
+            return None
+        if isinstance(e, ast.Compare):
+            cur = val(e.left)
+            res = True
+            for op, c in zip(e.ops, e.comparators):
+                if isinstance(op, (ast.In, ast.NotIn)) and isinstance(c, (ast.Tuple, ast.List, ast.Set, ast.Dict)):
+                    ks = [val(k) for k in (c.keys if isinstance(c, ast.Dict) else c.elts)]
+                    if cur is None or any(k is None for k in ks):
+                        return None
+                    r_ = (cur in ks) == isinstance(op, ast.In)
+                    nxt = None
+                else:
+                    nxt = val(c)
+                    if cur is None or nxt is None:
+                        return None
+                    r_ = {ast.Lt: cur < nxt, ast.LtE: cur <= nxt, ast.Gt: cur > nxt, ast.GtE: cur >= nxt, ast.Eq: cur == nxt, ast.NotEq: cur != nxt}.get(type(op))
+                    if r_ is None:
+                        return None
+                res = res and r_
+                cur = nxt
+            return res
+        return None
+    accepted = set()
+    for v in range(0, 18):
+        reach = explore(pf, lambda e, v=v: int_test(e, v))
+        rets = [n for n in pf.cfg.nodes if n.id in reach and n.kind == 'return']
+        if rets:
+            accepted.add(v)
+    R.paths_examined += 18
+    inst = 'UintField.parse_from :: set of accepted Lengths'
+    if accepted == {1, 2, 4, 8}:
+        R.ok('C07.TBL.1', inst, pf.f.loc(), 'Lengths 0..17 explored: a value is returned exactly for 1, 2, 4, 8')
+    else:
+        R.fail('C07.TBL.1', inst, pf.qual, 'def parse_from', f'a NonNegativeInteger is decoded for Lengths {sorted(accepted)} (the format allows 1, 2, 4 and 8 only): '
+               f'{sorted(accepted - {1, 2, 4, 8}) or "-"} accepted in addition, {sorted({1, 2, 4, 8} - accepted) or "-"} refused', pf.f.loc())
     ut = uint_tables(P)
     for (what, a, b, okay, detail) in compare_uint({'UintField.parse_from': ut['UintField.parse_from']}):
         inst = f'{a} :: {what}'
@@ -480,8 +541,8 @@ def run(R):
     # ------------------------------------------------------------------ LOP.1 termination
     R.ob('C07.LOP.1', 'decode loops make progress on every iteration (positive TL size) and model nesting is acyclic')
     nd = ctx(R, 'ndn.encoding.name.Name.decode')
-    wt = [t for t in nd.cfg.nodes if t.kind == 'test' and cmp_sides(t.ast) in (('length', ast.Gt, '0'),)]
-    dec = [n for n in nd.cfg.nodes if n.kind == 'stmt' and isinstance(n.ast, ast.AugAssign) and ast.unparse(n.ast.target) == 'length' and isinstance(n.ast.op, ast.Sub)]
+    wt = [t for t in nd.cfg.nodes if t.kind == 'test' and cmp_sides(t.ast) in ((REM, ast.Gt, '0'),)]
+    dec = [n for n in nd.cfg.nodes if n.kind == 'stmt' and isinstance(n.ast, ast.AugAssign) and ast.unparse(n.ast.target) == REM and isinstance(n.ast.op, ast.Sub)]
     inst = nd.qual + ' :: remaining length strictly decreases'
     # the amount subtracted (as a linear form over the sizes read by parse_tl_num, from the extent analysis) is positive
     positive = len(name_decs) == 1 and name_decs[0][2] == -1 and all(c >= 0 for c in name_decs[0][1].values()) and \
